@@ -125,17 +125,25 @@ def run_update(ck_ob, mod, label):
     ex = make_exec(f, starts=posn_starts())
     paths = ex.run(max_paths=3000)
     no_data_branches(f, paths)
-    if len(f.loops) != 1:
-        raise Broken("tinyjambu_hash_update: expected one loop (whole blocks), found %d" % len(f.loops))
-    hdr = f.loops[0]["header"]
-    ptrs = [f.insts[i] for i in f.blocks[hdr].insts if f.insts[i].op == "phi" and (f.insts[i].get("ty") or "").endswith("*")]
-    ints = [f.insts[i] for i in f.blocks[hdr].insts if f.insts[i].op == "phi" and not (f.insts[i].get("ty") or "").endswith("*")]
-    if len(ptrs) != 1 or len(ints) != 1:
-        raise Broken("tinyjambu_hash_update: expected one cursor and one remaining-length phi at the loop head")
-    cur, rem = ("hdp", ptrs[0].id), ("hd", ints[0].id)
+    # whole-block loops: the top-level loops carrying one input cursor and one remaining length (inner loops with a
+    # decided trip count are followed by the executor; several alternative block loops, e.g. per alignment class, are allowed)
+    tops = {}
+    for l in f.loops:
+        if l.get("parent", -1) != -1:
+            continue
+        hdr_ = l["header"]
+        ptrs_ = [f.insts[i] for i in f.blocks[hdr_].insts if f.insts[i].op == "phi" and (f.insts[i].get("ty") or "").endswith("*")]
+        ints_ = [f.insts[i] for i in f.blocks[hdr_].insts if f.insts[i].op == "phi" and not (f.insts[i].get("ty") or "").endswith("*")]
+        if len(ptrs_) != 1 or len(ints_) != 1:
+            raise Broken("tinyjambu_hash_update: expected one cursor and one remaining-length phi at the head of each block loop")
+        tops[hdr_] = (ptrs_, ints_)
+    if not tops:
+        raise Broken("tinyjambu_hash_update: no whole-block loop found")
     n = 0
-    seen = {"A": set(), "B": set(), "iter": 0, "exit": set()}
+    seen = {"A": set(), "B": set(), "iter": {h: 0 for h in tops}, "exit": {h: set() for h in tops}}
     for p in paths:
+        if p.end[0] in ("loop-entry", "backedge") and p.end[1] not in tops:
+            raise Broken("tinyjambu_hash_update: an inner loop without a decided trip count (header block %s)" % p.end[1])
         cls = [e for e in p.events if e[0] == "class" and e[1] == "start"]
         fresh = not cls
         pev = [e for e in p.events if e[0] == "P"]
@@ -166,6 +174,7 @@ def run_update(ck_ob, mod, label):
                 n += 4
             elif p.end[0] == "loop-entry":
                 seen["B"].add(pz)
+                ptrs, ints = tops[p.end[1]]
                 ini_c, ini_r = p.env.get(("init", ptrs[0].id)), p.env.get(("init", ints[0].id))
                 take = (16 - pz) if pz else 0
                 if pz == 0:
@@ -189,10 +198,15 @@ def run_update(ck_ob, mod, label):
                 n += 2
             continue
         # generic iteration / exit from the loop head
+        h0 = p.blocks[0] if p.blocks else None
+        if h0 not in tops:
+            raise Broken("tinyjambu_hash_update: a generic path does not start at a block-loop head")
+        ptrs, ints = tops[h0]
+        cur, rem = ("hdp", ptrs[0].id), ("hd", ints[0].id)
         S0 = words_at(p, ST, 0, 4, True)
         K0 = words_at(p, ST, 16, 4, True)
         if p.end[0] == "backedge":
-            seen["iter"] += 1
+            seen["iter"][h0] += 1
             blk = [mode.inbyte(cur, i) for i in range(16)]
             r = check_compress_events(c, f, p, pev, S0, K0, blk, 0, "block")
             if r:
@@ -211,7 +225,7 @@ def run_update(ck_ob, mod, label):
             if r is None:
                 c("STREAM", False, "tail-class", "", "a path leaves the block loop without fixing the remaining length to 0..15")
                 continue
-            seen["exit"].add(r)
+            seen["exit"][h0].add(r)
             c("STREAM", not pev, "tail-no-compress(%d)" % r, "fewer than 16 bytes left: nothing compressed", "compression with only %d bytes left" % r)
             okb = all(mem_byte(p, ST, 32 + i) == mode.inbyte(cur, i) for i in range(r))
             c("STREAM", okb, "tail-stash(%d)" % r, "the %d left-over bytes are stashed at the start of the buffer" % r, "left-over bytes are not stashed at buffer[0..%d)" % r)
@@ -223,7 +237,9 @@ def run_update(ck_ob, mod, label):
     wantA = {(pz, ln) for pz in range(1, 16) for ln in range(0, 16 - pz)}
     c("STREAM", seen["A"] == wantA, "classes-short", "all (position, short length) classes handled (%d)" % len(wantA),
       "short-update classes differ from the specification: missing %s extra %s" % (sorted(wantA - seen["A"])[:4], sorted(seen["A"] - wantA)[:4]))
-    c("STREAM", seen["exit"] == set(range(16)) and seen["iter"] >= 1, "classes-loop", "whole-block iteration and all 16 tail lengths handled", "loop classes: iter=%d tails=%s" % (seen["iter"], sorted(seen["exit"])))
+    for h in tops:
+        c("STREAM", seen["exit"][h] == set(range(16)) and seen["iter"][h] >= 1, "classes-loop" + ("" if len(tops) == 1 else "(head %s)" % h), "whole-block iteration and all 16 tail lengths handled",
+          "loop classes: iter=%d tails=%s" % (seen["iter"][h], sorted(seen["exit"][h])))
     return n + 3
 
 
